@@ -64,6 +64,7 @@ type roundMon struct {
 	precommitDelayFired bool
 	finRequested   bool
 	considerAfterPrevote bool
+	shown          map[string]bool // proposed headers (by hash) the strategy was shown in Consider/Choose calls
 }
 
 type cancelledTimer struct {
@@ -197,6 +198,10 @@ func (m *nodeMonitor) check() {
 					o.violate("C08", e.a+"-after-prevote-chosen", fmt.Sprintf("%s called in %d/%d after the strategy already chose its prevote", e.a, m.curH, m.curR))
 				}
 				for _, ph := range c.phs {
+					if rm.shown == nil {
+						rm.shown = map[string]bool{}
+					}
+					rm.shown[string(ph.Header.Hash)] = true
 					if ph.Header.Height != m.curH || ph.Round != m.curR {
 						o.violate("C08", "proposal-of-other-round-shown", fmt.Sprintf("%s in %d/%d was shown a proposed header for %d/%d", e.a, m.curH, m.curR, ph.Header.Height, ph.Round))
 					}
@@ -512,6 +517,18 @@ func (m *nodeMonitor) quiescent() {
 			for _, t := range n.timers {
 				if t.kind == "proposal" && t.h == h && t.r == r && t.fired && !t.cancelled {
 					armed = true
+				}
+			}
+		}
+		// ... and every proposal of this round that carries the chain's validator sets has been put before the strategy:
+		// a state machine that works with another set than the driver returned drops exactly those.
+		if !m.partial && w.idxOf(h, n.keyIdx) >= 0 {
+			for _, ph := range view.ProposedHeaders {
+				if ph.ProposerPubKey != nil && ph.ProposerPubKey.Equal(n.pubKey()) {
+					continue
+				}
+				if ph.Round == r && ph.Header.ValidatorSet.Equal(w.VS(h)) && ph.Header.NextValidatorSet.Equal(w.VS(h+1)) && !rm.shown[string(ph.Header.Hash)] {
+					o.violate("C07", "chain-proposal-withheld-from-strategy", fmt.Sprintf("the state machine awaits a proposal in %d/%d, the mirror's view of the round holds proposed header %s with the validator sets the chain prescribes, but the strategy was never asked to consider it", h, r, h8(ph.Header.Hash)))
 				}
 			}
 		}
